@@ -21,7 +21,6 @@
      d_adjacent Go's FindAll drops an empty match adjacent to the previous match
      d_gproto   global match/replace: undefined instead of null, lastIndex left
                 at the end of the last match (not reset to 0)
-     d_split0   "".split(re) never returns []
      d_dollar   "$10" is "$1" followed by "0" even when there are >= 10 captures *)
 From Coq Require Import ZArith List Bool Lia.
 From Otto Require Import C10.SpecSyntax C10.SpecMatch C10.SpecProto.
@@ -29,9 +28,9 @@ Import ListNotations.
 Open Scope Z_scope.
 
 Record dev := mkDev { d_slice : bool; d_bytes : bool; d_adjacent : bool; d_gproto : bool;
-                      d_split0 : bool; d_dollar : bool }.
-Definition all_on : dev := mkDev true true true true true true.
-Definition all_off : dev := mkDev false false false false false false.
+                      d_dollar : bool }.
+Definition all_on : dev := mkDev true true true true true.
+Definition all_off : dev := mkDev false false false false false.
 
 (* UTF-8 width of a BMP character *)
 Definition wid (c : Z) : Z := if c <? 128 then 1 else if c <? 2048 then 2 else 3.
@@ -212,7 +211,8 @@ Fixpoint split_matches (s : list Z) (ms : list mtch) (last : nat) (a : list ov) 
 Definition split_model (li : Z) (s : list Z) (lim : Z) (lim_given : bool) : option (list ov * Z) :=
   let arr :=
     if lim_given && (lim =? 0) then Some []
-    else if negb (d_split0 dv) && match s with [] => true | _ => false end then
+    else if match s with [] => true | _ => false end then
+      (* targetLength == 0: [] if search.MatchString(""), else the general path gives [""] *)
       match mt s O with MFuel => None | MFail => Some [OS s] | MOk _ _ => Some [] end
     else
       match go_all (2 * length s + 4) s O None (-1) [] with
